@@ -606,7 +606,7 @@ class Duration:
         new_seconds = (self._hours * CALENDAR.SECONDS_IN_HOUR +
                        self._minutes * CALENDAR.SECONDS_IN_MINUTE +
                        self._seconds)
-        diff_days, new_seconds = divmod(new_seconds, CALENDAR.SECONDS_IN_DAY)
+        diff_days, new_seconds = _divmod(new_seconds, CALENDAR.SECONDS_IN_DAY)
         new_days += diff_days
         return new_days, new_seconds
 
@@ -756,22 +756,22 @@ class Duration:
 
     def __lt__(self, other: "Duration") -> bool:
         if isinstance(other, Duration):
-            return self.get_days_and_seconds() < other.get_days_and_seconds()
+            return self.get_seconds() < other.get_seconds()
         return NotImplemented
 
     def __le__(self, other: "Duration") -> bool:
         if isinstance(other, Duration):
-            return self.get_days_and_seconds() <= other.get_days_and_seconds()
+            return self.get_seconds() <= other.get_seconds()
         return NotImplemented
 
     def __gt__(self, other: "Duration") -> bool:
         if isinstance(other, Duration):
-            return self.get_days_and_seconds() > other.get_days_and_seconds()
+            return self.get_seconds() > other.get_seconds()
         return NotImplemented
 
     def __ge__(self, other: "Duration") -> bool:
         if isinstance(other, Duration):
-            return self.get_days_and_seconds() >= other.get_days_and_seconds()
+            return self.get_seconds() >= other.get_seconds()
         return NotImplemented
 
     def __bool__(self):
